@@ -1,11 +1,16 @@
 """C19 — results do not depend on I/O chunking, and I/O failures are reported."""
+import os
+import re
 from vlib import *
 import iongen
 import binlib
 import c12text
 import textgen
 
-THEOREMS = ["C19_text_prefix", "C19_text_fault_reported", "C19_binary_failure_permanent", "C19_binary_prefix_chunks", "C19_binary_prefix", "C19_binary_prefix_lst", "C19_binary_fault_reported", "C19_binary_fault_detected", "C19_binary_budget_respected", "C19_binary_append_only", "C19_binary_fault_recorded"]
+THEOREMS = ["C19_text_prefix", "C19_text_fault_reported", "C19_binary_failure_permanent", "C19_binary_prefix_chunks", "C19_binary_prefix", "C19_binary_prefix_lst", "C19_binary_fault_reported", "C19_binary_fault_detected", "C19_binary_budget_respected", "C19_binary_append_only", "C19_binary_fault_recorded",
+            "C19_bufio_op_refines", "C19_bufio_chunk_independent", "C19_bufio_chunk_independent_ops", "C19_bufio_failure_never_eof",
+            "C19_bufio_failure_reported", "C19_bufio_ex"]
+EXTRA_MODULES = ["C19bufio"]
 LEVEL = "other"
 EXPLANATION = ("read side: documents (binary and text) x chunkings (every single split point, byte-at-a-time, random "
                "chunk sizes, data returned together with io.EOF) must give the trace of the all-at-once read; a source "
@@ -16,7 +21,98 @@ EXPLANATION = ("read side: documents (binary and text) x chunkings (every single
                "tw_prefix for all sequences and budgets + K4 with budgets).")
 
 
+BUFIO_ALLOWED = {"ReadByte", "Peek", "Discard"}
+
+
+def bufio_interface(ctx):
+    """premise of the C19_bufio_* theorems, checked on /repo's source on every run: the non-test code of package ion
+    touches a *bufio.Reader only through ReadByte, Peek, Discard, io.ReadFull (and passes it on / constructs it)"""
+    import glob
+    bad, uses = [], {}
+    for path in sorted(glob.glob(os.path.join(REPO, "ion", "*.go"))):
+        base = os.path.basename(path)
+        if base.endswith("_test.go") or base.startswith("export_verif"):
+            continue
+        src = open(path, errors="replace").read()
+        src = re.sub(r"//[^\n]*", "", src)
+        if "bufio" not in src:
+            continue
+        # names bound to a *bufio.Reader in this file: struct fields / parameters / locals
+        names = set(re.findall(r"(\w+)\s+\*bufio\.Reader", src)) | set(re.findall(r"(\w+)\s*:?=\s*bufio\.NewReader", src))
+        names.discard("func")
+        for nm in names:
+            for m in re.finditer(r"(?<![\w])(?:\w+\.)?%s\.(\w+)\(" % re.escape(nm), src):
+                meth = m.group(1)
+                uses[meth] = uses.get(meth, 0) + 1
+                if meth not in BUFIO_ALLOWED:
+                    bad.append("%s: %s.%s(" % (base, nm, meth))
+        for m in re.finditer(r"bufio\.(\w+)", src):
+            if m.group(1) not in ("Reader", "NewReader", "NewReaderSize"):
+                bad.append("%s: bufio.%s" % (base, m.group(1)))
+        for m in re.finditer(r"io\.(Read\w+|Copy\w*)\(\s*(?:\w+\.)?(\w+)", src):
+            if m.group(2) in names:
+                uses["io." + m.group(1)] = uses.get("io." + m.group(1), 0) + 1
+                if m.group(1) != "ReadFull":
+                    bad.append("%s: io.%s on a bufio.Reader" % (base, m.group(1)))
+    if bad:
+        ctx.fail("tie", "K13b-bufio-interface", "source scan of ion/*.go",
+                 "the Readers use their bufio.Reader through something other than ReadByte/Peek/Discard/io.ReadFull, so the "
+                 "premise of C19_bufio_chunk_independent no longer describes the code: " + "; ".join(bad[:6]))
+    ctx.count("K13b-bufio-interface", 1, ["scan"], uses=uses, outside_interface=len(bad))
+
+
+def bufio_model(ctx):
+    """K13b: Base/Bufio.v against the real bufio.Reader (operation programs x chunk schedules x final error), and the
+    real answers against the chunk-free specification side of the model (bufiospec): that is the property itself"""
+    rng = ctx.rng
+    lines = []
+    edge = [1, 2, 3, 15, 16, 17, 4095, 4096, 4097, 5000, 8191, 8192, 8193]
+
+    def size():
+        return rng.choice([rng.randint(1, 8), rng.randint(1, 300), rng.choice(edge), rng.choice(edge)])
+
+    def amount(n):
+        return rng.choice([0, 1, 2, rng.randint(0, 40), rng.choice(edge), max(0, n + rng.randint(-3, 3)), rng.randint(0, n + 5)])
+
+    for _ in range(ctx.scale(3000, 60000)):
+        n = rng.choice([0, 1, rng.randint(0, 30), rng.randint(0, 600), rng.choice(edge), rng.randint(4000, 9000)])
+        data = bytes(rng.randrange(256) for _ in range(n))
+        k = rng.choice([0, 0, 1, 2, rng.randint(0, 12), rng.randint(0, 60)])
+        sizes = [size() for _ in range(k)]
+        if rng.random() < 0.2:
+            sizes = [1] * rng.randint(1, 200)
+        ops = []
+        for _ in range(rng.randint(1, 14)):
+            o = rng.choice(["rb", "rb", "pk", "ds", "rf", "rf"])
+            if o == "rb":
+                ops.append("rb")
+            else:
+                a = amount(n)
+                if o == "pk" and rng.random() < 0.7:
+                    a = rng.choice([1, 2, 4, 5, rng.randint(0, 12), a])
+                ops += [o, str(a)]
+        lines.append("bufio %s %s %s %d %s %s" % (rng.choice("ef"), rng.choice("01"), iongen.hx(data), len(sizes),
+                                                  " ".join(str(s) for s in sizes), " ".join(ops)))
+    lines = [re.sub(r"  +", " ", l) for l in lines]
+    spec = run_model([l.replace("bufio ", "bufiospec ", 1) for l in lines])
+    spec_of = dict(zip(lines, spec))
+
+    def oracle(ln, go):
+        s = spec_of[ln]
+        if model_unanswered(s):
+            return None
+        if go != s:
+            return "with this chunking the program sees %s but on the unchunked bytes %s" % (go[:160], s[:160])
+        if ln.split(" ")[1] == "f" and re.search(r"(:|E)u?eof", go):
+            return "the source failed, yet an operation reported the end of the input: " + go[:160]
+        return None
+
+    ctx.correspond("K13b-bufio", lines, oracle=oracle, nontrivial=lambda ln, m: True)
+
+
 def run(ctx):
+    bufio_interface(ctx)
+    bufio_model(ctx)
     rng = ctx.rng
     forests = binlib.gen_forests(ctx, ctx.scale(120, 3000), {"depth": 3})
     bdocs = binlib.encode_docs(ctx, forests, True)
